@@ -46,7 +46,7 @@ Section LayerInd.
 End LayerInd.
 
 (** ** The interest pass splits into a pure answer and a transformer of the pending interest *)
-Definition l_pend (r : bool) (l : layer) (m : meta) (p : pend) : pend := snd (l_reg r l m p).
+Definition l_pend (l : layer) (m : meta) (p : pend) : pend := snd (l_reg l m p).
 
 Definition pick_int (fl : flags) (o i : interest) : interest :=
   if fl_has_psf fl then i
@@ -66,108 +66,124 @@ Proof.
     destruct (is_sometimes o); [reflexivity|]. destruct (is_never i && fl_inner_has_psf fl); reflexivity.
 Qed.
 
-Definition vec_step (r : bool) (m : meta) (st : interest * pend) (e : layer) : interest * pend :=
-  let '(i, p') := l_reg r e m (snd st) in (vec_int_step (fst st) i, p').
+Definition vec_step (m : meta) (st : vec_flags * pend) (e : layer) : vec_flags * pend :=
+  let '(i, p') := l_reg e m (snd st) in (vec_flags_step (fst st) i, p').
 
-Lemma l_reg_vec : forall r ls m p, l_reg r (LVec ls) m p = fold_left (vec_step r m) ls (never, p).
+Lemma l_reg_vec : forall ls m p,
+  l_reg (LVec ls) m p =
+  (vec_flags_result (fst (fold_left (vec_step m) ls (vec_flags_init, p))),
+   snd (fold_left (vec_step m) ls (vec_flags_init, p))).
 Proof. reflexivity. Qed.
 
-Lemma vec_fold_fst : forall r m ls,
-  Forall (fun e => forall p, fst (l_reg r e m p) = l_int r e m) ls ->
-  forall acc p, fst (fold_left (vec_step r m) ls (acc, p)) = fold_left vec_int_step (map (fun e => l_int r e m) ls) acc.
+Lemma vec_fold_fst : forall m ls,
+  Forall (fun e => forall p, fst (l_reg e m p) = l_int e m) ls ->
+  forall acc p, fst (fold_left (vec_step m) ls (acc, p)) = fold_left vec_flags_step (map (fun e => l_int e m) ls) acc.
 Proof.
-  intros r m ls H. induction H as [|e t He Ht IH]; intros acc p; simpl; [reflexivity|].
-  unfold vec_step at 2. simpl. specialize (He p). destruct (l_reg r e m p) as [i p'] eqn:E. simpl in He. subst i.
+  intros m ls H. induction H as [|e t He Ht IH]; intros acc p; simpl; [reflexivity|].
+  unfold vec_step at 2. simpl. specialize (He p). destruct (l_reg e m p) as [i p'] eqn:E. simpl in He. subst i.
   apply IH.
 Qed.
 
-Lemma vec_fold_snd : forall r m ls acc p,
-  snd (fold_left (vec_step r m) ls (acc, p)) = fold_left (fun q e => l_pend r e m q) ls p.
+Lemma vec_fold_snd : forall m ls acc p,
+  snd (fold_left (vec_step m) ls (acc, p)) = fold_left (fun q e => l_pend e m q) ls p.
 Proof.
-  intros r m ls. induction ls as [|e t IH]; intros acc p; simpl; [reflexivity|].
-  unfold vec_step at 2. simpl. unfold l_pend at 2. destruct (l_reg r e m p) as [i p']. simpl. apply IH.
+  intros m ls. induction ls as [|e t IH]; intros acc p; simpl; [reflexivity|].
+  unfold vec_step at 2. simpl. unfold l_pend at 2. destruct (l_reg e m p) as [i p']. simpl. apply IH.
 Qed.
+
+(** the two accumulators of [Vec::register_callsite] compute the conjunction of the elements' answers *)
+Lemma vec_flags_fold : forall is a b,
+  vec_flags_result (fold_left vec_flags_step is (a, b)) =
+  if a || existsb is_never is then never else if b && forallb is_always is then always else sometimes.
+Proof.
+  induction is as [|i t IH]; intros a b; simpl.
+  - rewrite orb_false_r, andb_true_r. reflexivity.
+  - unfold vec_flags_step at 2. simpl. rewrite IH. rewrite <- orb_assoc, <- andb_assoc. reflexivity.
+Qed.
+
+Lemma vec_flags_conj : forall is, vec_flags_result (fold_left vec_flags_step is vec_flags_init) = conj_interest is.
+Proof. intros. unfold vec_flags_init. rewrite vec_flags_fold. reflexivity. Qed.
 
 (** the answer does not depend on the pending interest *)
-Lemma l_reg_fst : forall l r m p, fst (l_reg r l m p) = l_int r l m.
+Lemma l_reg_fst : forall l m p, fst (l_reg l m p) = l_int l m.
 Proof.
-  induction l using layer_ind'; intros r m p; unfold l_int; simpl; try reflexivity.
+  induction l using layer_ind'; intros m p; unfold l_int; simpl; try reflexivity.
   - (* Pair *)
-    destruct (l_reg r l1 m p) as [o p1] eqn:E1. destruct (l_reg r l1 m None) as [o' p1'] eqn:E2.
+    destruct (l_reg l1 m p) as [o p1] eqn:E1. destruct (l_reg l1 m None) as [o' p1'] eqn:E2.
     rewrite !pick_interest_eq. simpl.
     assert (o = o') as ->.
-    { pose proof (IHl1 r m p) as A. pose proof (IHl1 r m None) as B. rewrite E1 in A. rewrite E2 in B. simpl in *. congruence. }
-    f_equal. rewrite (IHl2 r m p1), (IHl2 r m p1'). reflexivity.
+    { pose proof (IHl1 m p) as A. pose proof (IHl1 m None) as B. rewrite E1 in A. rewrite E2 in B. simpl in *. congruence. }
+    f_equal. rewrite (IHl2 m p1), (IHl2 m p1'). reflexivity.
   - apply IHl.
   - (* Vec *)
-    fold (vec_step r m).
-    assert (F : Forall (fun e => forall p, fst (l_reg r e m p) = l_int r e m) ls).
+    fold (vec_step m).
+    assert (F : Forall (fun e => forall p, fst (l_reg e m p) = l_int e m) ls).
     { eapply Forall_impl; [|exact H]. intros e He q. apply He. }
-    rewrite !(vec_fold_fst r m ls F). reflexivity.
+    rewrite !(vec_fold_fst m ls F). reflexivity.
   - apply IHl.
   - apply IHl.
 Qed.
 
-Lemma l_reg_eq : forall l r m p, l_reg r l m p = (l_int r l m, l_pend r l m p).
-Proof. intros. rewrite <- (l_reg_fst l r m p). unfold l_pend. destruct (l_reg r l m p); reflexivity. Qed.
+Lemma l_reg_eq : forall l m p, l_reg l m p = (l_int l m, l_pend l m p).
+Proof. intros. rewrite <- (l_reg_fst l m p). unfold l_pend. destruct (l_reg l m p); reflexivity. Qed.
 
 (** equations *)
-Lemma l_int_filtered : forall r l f m, l_int r (Filtered l f) m = always.
+Lemma l_int_filtered : forall l f m, l_int (Filtered l f) m = always.
 Proof. reflexivity. Qed.
-Lemma l_pend_filtered : forall r l f m p,
-  l_pend r (Filtered l f) m p = add_interest (if is_never (f_int f m) then p else l_pend r l m p) (f_int f m).
+Lemma l_pend_filtered : forall l f m p,
+  l_pend (Filtered l f) m p = add_interest (if is_never (f_int f m) then p else l_pend l m p) (f_int f m).
 Proof. reflexivity. Qed.
 
-Lemma l_int_pair : forall r a b m,
-  l_int r (Pair a b) m = pick_int (pair_flags r a b) (l_int r a m) (l_int r b m).
+Lemma l_int_pair : forall a b m,
+  l_int (Pair a b) m = pick_int (pair_flags a b) (l_int a m) (l_int b m).
 Proof.
-  intros. unfold l_int at 1. simpl. rewrite (l_reg_eq a r m None). rewrite pick_interest_eq. simpl.
+  intros. unfold l_int at 1. simpl. rewrite (l_reg_eq a m None). rewrite pick_interest_eq. simpl.
   rewrite l_reg_fst. reflexivity.
 Qed.
-Lemma l_pend_pair : forall r a b m p,
-  l_pend r (Pair a b) m p =
-  if psf a then l_pend r b m (l_pend r a m p)
-  else if is_never (l_int r a m) then None else l_pend r b m (l_pend r a m p).
+Lemma l_pend_pair : forall a b m p,
+  l_pend (Pair a b) m p =
+  if psf a then l_pend b m (l_pend a m p)
+  else if is_never (l_int a m) then None else l_pend b m (l_pend a m p).
 Proof.
-  intros. unfold l_pend at 1. simpl. rewrite (l_reg_eq a r m p). rewrite pick_interest_eq. simpl. reflexivity.
+  intros. unfold l_pend at 1. simpl. rewrite (l_reg_eq a m p). rewrite pick_interest_eq. simpl. reflexivity.
 Qed.
 
-Lemma l_int_vec : forall r ls m,
-  l_int r (LVec ls) m = fold_left vec_int_step (map (fun e => l_int r e m) ls) never.
+Lemma l_int_vec : forall ls m,
+  l_int (LVec ls) m = conj_interest (map (fun e => l_int e m) ls).
 Proof.
-  intros. unfold l_int at 1. rewrite l_reg_vec. apply vec_fold_fst.
-  apply Forall_forall. intros e _ p. apply l_reg_fst.
+  intros. unfold l_int at 1. rewrite l_reg_vec. simpl. rewrite vec_fold_fst.
+  - apply vec_flags_conj.
+  - apply Forall_forall. intros e _ p. apply l_reg_fst.
 Qed.
-Lemma l_pend_vec : forall r ls m p,
-  l_pend r (LVec ls) m p = fold_left (fun q e => l_pend r e m q) ls p.
-Proof. intros. unfold l_pend at 1. rewrite l_reg_vec. apply vec_fold_snd. Qed.
+Lemma l_pend_vec : forall ls m p,
+  l_pend (LVec ls) m p = fold_left (fun q e => l_pend e m q) ls p.
+Proof. intros. unfold l_pend at 1. rewrite l_reg_vec. simpl. apply vec_fold_snd. Qed.
 
 Lemma c_reg_with : forall has l c m p,
   c_reg has (With l c) m p =
-  (pick_int (with_flags l c) (l_int (is_registry c) l m) (fst (c_reg has c m (l_pend (is_registry c) l m p))),
-   if psf l then snd (c_reg has c m (l_pend (is_registry c) l m p))
-   else if is_never (l_int (is_registry c) l m) then None
-   else snd (c_reg has c m (l_pend (is_registry c) l m p))).
+  (pick_int (with_flags l c) (l_int l m) (fst (c_reg has c m (l_pend l m p))),
+   if psf l then snd (c_reg has c m (l_pend l m p))
+   else if is_never (l_int l m) then None
+   else snd (c_reg has c m (l_pend l m p))).
 Proof.
-  intros. simpl. rewrite (l_reg_eq l (is_registry c) m p). rewrite pick_interest_eq. reflexivity.
+  intros. simpl. rewrite (l_reg_eq l m p). rewrite pick_interest_eq. reflexivity.
 Qed.
 
-(** facts about the "highest interest" fold of [Vec] *)
-Lemma vec_int_fold_never : forall is, fold_left vec_int_step is never = never -> Forall (fun i => i = never) is.
+(** facts about the conjunction *)
+Lemma conj_never_ex : forall is, conj_interest is = never -> Exists (fun i => i = never) is.
 Proof.
-  assert (G : forall is acc, fold_left vec_int_step is acc = never -> acc = never /\ Forall (fun i => i = never) is).
-  { induction is as [|i t IH]; simpl; intros acc H; [auto|].
-    apply IH in H. destruct H as [H1 H2]. unfold vec_int_step in H1.
-    destruct acc, i; simpl in H1; try discriminate H1; auto. }
-  intros is H. apply G in H. tauto.
+  intros is H. unfold conj_interest in H. destruct (existsb is_never is) eqn:E.
+  - apply existsb_exists in E. destruct E as [i [Hi Hn]]. apply Exists_exists. exists i. split; [exact Hi|].
+    destruct i; try discriminate Hn; reflexivity.
+  - destruct (forallb is_always is); discriminate H.
 Qed.
 
-Lemma vec_fold_all_always : forall is, is <> [] -> Forall (fun i => i = always) is ->
-  fold_left vec_int_step is never = always.
+Lemma conj_all_always : forall is, Forall (fun i => i = always) is -> conj_interest is = always.
 Proof.
-  assert (G : forall is, Forall (fun i => i = always) is -> fold_left vec_int_step is always = always).
-  { induction is as [|i t IH]; simpl; intros H; [reflexivity|]. inversion H; subst. simpl. apply IH. assumption. }
-  intros [|i t] Hne H; [congruence|]. inversion H; subst. simpl. apply G. assumption.
+  intros is H. unfold conj_interest.
+  assert (E : existsb is_never is = false /\ forallb is_always is = true).
+  { induction H as [|i t Hi Ht IH]; simpl; [split; reflexivity|]. subst i. simpl. exact IH. }
+  destruct E as [E1 E2]. rewrite E1, E2. reflexivity.
 Qed.
 
 Lemma conj_always_all : forall is, conj_interest is = always -> Forall (fun i => i = always) is.
@@ -181,15 +197,15 @@ Qed.
 Definition FS (f : filt) (m : meta) (cx : ctx) : Prop :=
   (f_int f m = never -> f_acc f m cx = false) /\ (f_int f m = always -> f_acc f m cx = true).
 
-Fixpoint LSound (r : bool) (l : layer) (m : meta) (cx : ctx) : Prop :=
+Fixpoint LSound (l : layer) (m : meta) (cx : ctx) : Prop :=
   match l with
   | Glob f => FS f m cx
-  | Filtered l' f => FS f m cx /\ (f_int f m <> never -> LSound r l' m cx)
-  | Pair a b => LSound r a m cx /\ ((psf a = true \/ l_int r a m <> never) -> LSound r b m cx)
-  | LSome l => LSound r l m cx
-  | LVec ls => fold_right (fun e P => LSound r e m cx /\ P) True ls
-  | LBox l => LSound r l m cx
-  | LReload l => LSound r l m cx
+  | Filtered l' f => FS f m cx /\ (f_int f m <> never -> LSound l' m cx)
+  | Pair a b => LSound a m cx /\ ((psf a = true \/ l_int a m <> never) -> LSound b m cx)
+  | LSome l => LSound l m cx
+  | LVec ls => fold_right (fun e P => LSound e m cx /\ P) True ls
+  | LBox l => LSound l m cx
+  | LReload l => LSound l m cx
   | _ => True
   end.
 
@@ -197,11 +213,11 @@ Fixpoint CSound (c : coll) (m : meta) (cx : ctx) : Prop :=
   match c with
   | Registry => True
   | With l c' =>
-    LSound (is_registry c') l m cx /\
-    ((psf l = true \/ l_int (is_registry c') l m <> never) -> CSound c' m cx)
+    LSound l m cx /\
+    ((psf l = true \/ l_int l m <> never) -> CSound c' m cx)
   end.
 
-Lemma LSound_vec : forall r ls m cx, LSound r (LVec ls) m cx <-> Forall (fun e => LSound r e m cx) ls.
+Lemma LSound_vec : forall ls m cx, LSound (LVec ls) m cx <-> Forall (fun e => LSound e m cx) ls.
 Proof.
   intros. simpl. induction ls as [|e t IH]; simpl.
   - split; auto.
@@ -209,23 +225,23 @@ Proof.
 Qed.
 
 (** [Registered] lifted to trees, with the same reach as the registration pass *)
-Fixpoint LRegistered (r : bool) (l : layer) (m : meta) (cx : ctx) : Prop :=
+Fixpoint LRegistered (l : layer) (m : meta) (cx : ctx) : Prop :=
   match l with
   | Glob f => Registered f m cx
-  | Filtered l' f => Registered f m cx /\ (f_int f m <> never -> LRegistered r l' m cx)
-  | Pair a b => LRegistered r a m cx /\ ((psf a = true \/ l_int r a m <> never) -> LRegistered r b m cx)
-  | LSome l => LRegistered r l m cx
-  | LVec ls => fold_right (fun e P => LRegistered r e m cx /\ P) True ls
-  | LBox l => LRegistered r l m cx
-  | LReload l => LRegistered r l m cx
+  | Filtered l' f => Registered f m cx /\ (f_int f m <> never -> LRegistered l' m cx)
+  | Pair a b => LRegistered a m cx /\ ((psf a = true \/ l_int a m <> never) -> LRegistered b m cx)
+  | LSome l => LRegistered l m cx
+  | LVec ls => fold_right (fun e P => LRegistered e m cx /\ P) True ls
+  | LBox l => LRegistered l m cx
+  | LReload l => LRegistered l m cx
   | _ => True
   end.
 Fixpoint CRegistered (c : coll) (m : meta) (cx : ctx) : Prop :=
   match c with
   | Registry => True
   | With l c' =>
-    LRegistered (is_registry c') l m cx /\
-    ((psf l = true \/ l_int (is_registry c') l m <> never) -> CRegistered c' m cx)
+    LRegistered l m cx /\
+    ((psf l = true \/ l_int l m <> never) -> CRegistered c' m cx)
   end.
 
 Definition LLeafOK (l : layer) : Prop := Forall LeafOK (l_filters l).
@@ -247,11 +263,11 @@ Proof.
   - rewrite existsb_app, orb_false_iff, IH. split; [intros [A1 A2]; constructor; auto | intros H; inversion H; auto].
 Qed.
 
-Lemma LSound_of : forall l r m cx,
-  LLeafOK l -> l_f12 l m = false -> LRegistered r l m cx -> LSound r l m cx.
+Lemma LSound_of : forall l m cx,
+  LLeafOK l -> l_f12 l m = false -> LRegistered l m cx -> LSound l m cx.
 Proof.
   unfold LLeafOK, l_f12.
-  induction l using layer_ind'; intros r m cx HL H12 HR; simpl in *; auto.
+  induction l using layer_ind'; intros m cx HL H12 HR; simpl in *; auto.
   - (* Glob *)
     inversion HL; subst. rewrite orb_false_r in H12. apply filter_interest_sound; assumption.
   - (* Filtered *)
@@ -279,47 +295,56 @@ Qed.
 
 (** ** [never] *)
 
-Lemma psf_always : forall l r m, psf l = true -> l_int r l m = always.
+Lemma psf_always : forall l m, psf l = true -> l_int l m = always.
 Proof.
-  induction l using layer_ind'; intros r m Hp; simpl in Hp; try discriminate Hp; try reflexivity.
+  induction l using layer_ind'; intros m Hp; simpl in Hp; try discriminate Hp; try reflexivity.
   - (* Pair *)
     apply andb_true_iff in Hp. destruct Hp as [Ha Hb]. rewrite l_int_pair. unfold pick_int. simpl. rewrite Ha.
     apply IHl2. exact Hb.
-  - apply (IHl r m Hp).
+  - apply (IHl m Hp).
   - (* Vec *)
     apply andb_true_iff in Hp. destruct Hp as [Hall Hne]. rewrite l_int_vec.
-    apply vec_fold_all_always.
-    + destruct ls; [discriminate Hne | discriminate].
-    + rewrite Forall_map. rewrite forallb_forall in Hall. rewrite Forall_forall in H.
-      apply Forall_forall. intros x Hx. apply H; auto.
-  - apply (IHl r m Hp).
+    apply conj_all_always.
+    rewrite Forall_map. rewrite forallb_forall in Hall. rewrite Forall_forall in H.
+    apply Forall_forall. intros x Hx. apply H; auto.
+  - apply (IHl m Hp).
+Qed.
+
+Lemma forallb_false_of : forall {A} (g : A -> bool) l x, In x l -> g x = false -> forallb g l = false.
+Proof.
+  intros A g l x Hin Hx. destruct (forallb g l) eqn:E; [|reflexivity].
+  rewrite forallb_forall in E. rewrite (E x Hin) in Hx. discriminate Hx.
 Qed.
 
 (** a non-per-layer-filtered tree that answers [never] rejects the callsite for the whole stack *)
-Lemma layer_never_rejects : forall l r m cx,
-  LSound r l m cx -> l_f14 l = false -> l_int r l m = never -> l_en l m cx = false.
+Lemma layer_never_rejects : forall l m cx,
+  LSound l m cx -> l_int l m = never -> l_en l m cx = false.
 Proof.
-  induction l using layer_ind'; intros r m cx HS H14 Hn; simpl in *; try discriminate Hn.
+  induction l using layer_ind'; intros m cx HS Hn; simpl in *; try discriminate Hn.
   - (* Glob *) unfold l_int in Hn. simpl in Hn. apply HS. exact Hn.
   - (* Pair *)
-    apply orb_false_iff in H14. destruct H14 as [H14a H14b]. destruct HS as [HSa HSb].
+    destruct HS as [HSa HSb].
     rewrite l_int_pair in Hn. unfold pick_int in Hn. simpl in Hn.
     destruct (psf l1) eqn:Ep.
-    + rewrite (IHl2 r m cx (HSb (or_introl eq_refl)) H14b Hn). apply andb_false_r.
-    + destruct (l_int r l1 m) eqn:Ea; simpl in Hn.
-      * rewrite (IHl1 r m cx HSa H14a Ea). reflexivity.
+    + assert (E2 : l_en l2 m cx = false) by (apply IHl2; [apply HSb; left; reflexivity | exact Hn]).
+      rewrite E2. apply andb_false_r.
+    + destruct (l_int l1 m) eqn:Ea; simpl in Hn.
+      * assert (E1 : l_en l1 m cx = false) by (apply IHl1; [exact HSa | exact Ea]).
+        rewrite E1. reflexivity.
       * discriminate Hn.
-      * assert (Hb : l_int r l2 m = never).
-        { destruct (l_int r l2 m); simpl in Hn; try discriminate Hn; reflexivity. }
-        rewrite (IHl2 r m cx (HSb (or_intror ltac:(discriminate))) H14b Hb). apply andb_false_r.
-  - (* LSome *) apply (IHl r m cx HS H14 Hn).
+      * assert (Hb : l_int l2 m = never).
+        { destruct (l_int l2 m); simpl in Hn; try discriminate Hn; reflexivity. }
+        assert (HSb' : LSound l2 m cx) by (apply HSb; right; discriminate).
+        assert (E2 : l_en l2 m cx = false) by (apply IHl2; [exact HSb' | exact Hb]).
+        rewrite E2. apply andb_false_r.
+  - (* LSome *) apply (IHl m cx HS Hn).
   - (* Vec *)
-    rewrite l_int_vec in Hn. apply vec_int_fold_never in Hn. apply orb_false_iff in H14. destruct H14 as [Hne H14].
-    destruct ls as [|e t]; [discriminate Hne|]. simpl.
-    inversion H; subst. inversion Hn; subst. destruct HS as [HSe _]. simpl in H14. apply orb_false_iff in H14.
-    rewrite (H2 r m cx HSe (proj1 H14) H4). reflexivity.
-  - apply (IHl r m cx HS H14 Hn).
-  - apply (IHl r m cx HS H14 Hn).
+    rewrite l_int_vec in Hn. apply conj_never_ex in Hn. apply Exists_exists in Hn.
+    destruct Hn as [i [Hi Hin]]. apply in_map_iff in Hi. destruct Hi as [e [He Hine]]. subst i.
+    apply LSound_vec in HS. rewrite Forall_forall in HS. rewrite Forall_forall in H.
+    apply (forallb_false_of _ ls e Hine). apply (H e Hine m cx (HS e Hine) Hin).
+  - apply (IHl m cx HS Hn).
+  - apply (IHl m cx HS Hn).
 Qed.
 
 Lemma add_interest_some : forall p i, add_interest p i <> None.
@@ -335,12 +360,12 @@ Qed.
 
 (** a per-layer-filtered tree always contributes to the pending interest, and if the result is [never] every
     recording leaf in it is muted by a filter that rejects the callsite *)
-Lemma psf_pend_never : forall l r m cx,
-  psf l = true -> LSound r l m cx ->
-  forall p, l_pend r l m p <> None /\
-            (l_pend r l m p = Some never -> l_recv l m cx = [] /\ (p = None \/ p = Some never)).
+Lemma psf_pend_never : forall l m cx,
+  psf l = true -> LSound l m cx ->
+  forall p, l_pend l m p <> None /\
+            (l_pend l m p = Some never -> l_recv l m cx = [] /\ (p = None \/ p = Some never)).
 Proof.
-  induction l using layer_ind'; intros r m cx Hp HS p; simpl in Hp; try discriminate Hp.
+  induction l using layer_ind'; intros m cx Hp HS p; simpl in Hp; try discriminate Hp.
   - (* Filtered *)
     rewrite l_pend_filtered. split; [apply add_interest_some|]. intros H.
     apply add_interest_never in H. destruct H as [H1 H2]. rewrite H2 in H1. simpl in H1.
@@ -348,39 +373,35 @@ Proof.
   - (* Pair *)
     apply andb_true_iff in Hp. destruct Hp as [Ha Hb]. destruct HS as [HSa HSb].
     rewrite l_pend_pair, Ha.
-    destruct (IHl2 r m cx Hb (HSb (or_introl Ha)) (l_pend r l1 m p)) as [B1 B2].
-    destruct (IHl1 r m cx Ha HSa p) as [A1 A2].
+    destruct (IHl2 m cx Hb (HSb (or_introl Ha)) (l_pend l1 m p)) as [B1 B2].
+    destruct (IHl1 m cx Ha HSa p) as [A1 A2].
     split; [exact B1|]. intros H. destruct (B2 H) as [Hr [Hq|Hq]]; [congruence|].
     destruct (A2 Hq) as [Hr' Hp']. simpl. rewrite Hr, Hr'. auto.
-  - (* LSome *) apply (IHl r m cx Hp HS p).
+  - (* LSome *) apply (IHl m cx Hp HS p).
   - (* Vec *)
     apply andb_true_iff in Hp. destruct Hp as [Hall Hne]. rewrite l_pend_vec.
     rewrite forallb_forall in Hall. apply LSound_vec in HS.
-    assert (G : forall ls p, Forall (fun e => psf e = true) ls -> Forall (fun e => LSound r e m cx) ls ->
-                Forall (fun l => forall r m cx, psf l = true -> LSound r l m cx -> forall p,
-                   l_pend r l m p <> None /\
-                   (l_pend r l m p = Some never -> l_recv l m cx = [] /\ (p = None \/ p = Some never))) ls ->
-                (ls <> [] -> fold_left (fun q e => l_pend r e m q) ls p <> None) /\
-                (fold_left (fun q e => l_pend r e m q) ls p = Some never ->
-                 flat_map (fun e => l_recv e m cx) ls = [] /\ (p = None \/ p = Some never \/ ls = [] /\ False) \/
-                 ls = [] /\ p = Some never)).
+    assert (G : forall ls p, Forall (fun e => psf e = true) ls -> Forall (fun e => LSound e m cx) ls ->
+                Forall (fun l => forall m cx, psf l = true -> LSound l m cx -> forall p,
+                   l_pend l m p <> None /\
+                   (l_pend l m p = Some never -> l_recv l m cx = [] /\ (p = None \/ p = Some never))) ls ->
+                (ls <> [] -> fold_left (fun q e => l_pend e m q) ls p <> None) /\
+                (fold_left (fun q e => l_pend e m q) ls p = Some never ->
+                 flat_map (fun e => l_recv e m cx) ls = [] /\ (p = None \/ p = Some never))).
     { clear. induction ls as [|e t IH]; intros p Hps HSs HIH.
-      - simpl. split; [congruence|]. intros H. right. auto.
+      - simpl. split; [congruence|]. intros H. auto.
       - inversion Hps; subst. inversion HSs; subst. inversion HIH; subst. simpl.
-        destruct (H5 r m cx H1 H3 p) as [E1 E2].
-        destruct (IH (l_pend r e m p) H2 H4 H6) as [T1 T2]. split.
+        destruct (H5 m cx H1 H3 p) as [E1 E2].
+        destruct (IH (l_pend e m p) H2 H4 H6) as [T1 T2]. split.
         + intros _. destruct t as [|x u]; [simpl; exact E1 | apply T1; discriminate].
-        + intros H. left. destruct (T2 H) as [[Hr Hq] | [Ht Hq]].
-          * destruct Hq as [Hq|[Hq|[_ []]]]; [congruence|].
-            destruct (E2 Hq) as [Hr' Hp']. rewrite Hr, Hr'. simpl. split; [reflexivity|]. destruct Hp'; auto.
-          * subst t. simpl. destruct (E2 Hq) as [Hr' Hp']. rewrite Hr'. split; [reflexivity|]. destruct Hp'; auto. }
+        + intros H. destruct (T2 H) as [Hr Hq].
+          destruct Hq as [Hq|Hq]; [congruence|].
+          destruct (E2 Hq) as [Hr' Hp']. rewrite Hr, Hr'. simpl. split; [reflexivity | exact Hp']. }
     assert (Hps : Forall (fun e => psf e = true) ls) by (apply Forall_forall; exact Hall).
     destruct (G ls p Hps HS H) as [G1 G2]. split.
     + apply G1. destruct ls; [discriminate Hne | discriminate].
-    + intros Hq. destruct (G2 Hq) as [[Hr Hp'] | [Hl _]].
-      * simpl. split; [exact Hr|]. destruct Hp' as [?|[?|[_ []]]]; auto.
-      * subst ls. discriminate Hne.
-  - (* LBox *) apply (IHl r m cx Hp HS p).
+    + intros Hq. simpl. apply G2. exact Hq.
+  - (* LBox *) apply (IHl m cx Hp HS p).
 Qed.
 
 Fixpoint AllPsf (c : coll) : Prop :=
@@ -390,37 +411,36 @@ Lemma allpsf_inner_has_psf : forall c, AllPsf c -> c_psf c || is_registry c = tr
 Proof. intros [|l c] H; simpl in *; [reflexivity|]. destruct H as [-> _]. reflexivity. Qed.
 
 Lemma coll_never : forall c has m cx p,
-  CSound c m cx -> c_f14 c = false -> fst (c_reg has c m p) = never ->
+  CSound c m cx -> fst (c_reg has c m p) = never ->
   c_en c m cx = false \/ (AllPsf c /\ c_recv c m cx = [] /\ (p = None \/ p = Some never)).
 Proof.
-  induction c as [|l c IH]; intros has m cx p HS H14 Hn.
+  induction c as [|l c IH]; intros has m cx p HS Hn.
   - simpl in Hn. destruct has; simpl in Hn; [|discriminate Hn].
     destruct p as [i|]; simpl in Hn; [subst i|discriminate Hn]. right. simpl. auto.
   - rewrite c_reg_with in Hn. simpl in Hn. simpl in HS. destruct HS as [HSl HSc].
-    simpl in H14. apply orb_false_iff in H14. destruct H14 as [H14l H14c].
     unfold pick_int in Hn. simpl in Hn.
     destruct (psf l) eqn:Ep.
     + (* a per-layer-filtered layer: the inner answer is passed up *)
-      destruct (IH has m cx _ (HSc (or_introl eq_refl)) H14c Hn) as [He | [Ha [Hr Hq]]].
+      destruct (IH has m cx _ (HSc (or_introl eq_refl)) Hn) as [He | [Ha [Hr Hq]]].
       * left. simpl. rewrite He. apply andb_false_r.
-      * right. destruct (psf_pend_never l (is_registry c) m cx Ep HSl p) as [P1 P2].
+      * right. destruct (psf_pend_never l m cx Ep HSl p) as [P1 P2].
         destruct Hq as [Hq|Hq]; [congruence|]. destruct (P2 Hq) as [Hr' Hp']. simpl. rewrite Hr, Hr'. auto.
-    + destruct (l_int (is_registry c) l m) eqn:Eo; simpl in Hn.
-      * left. simpl. rewrite (layer_never_rejects l _ m cx HSl H14l Eo). reflexivity.
+    + destruct (l_int l m) eqn:Eo; simpl in Hn.
+      * left. simpl. rewrite (layer_never_rejects l m cx HSl Eo). reflexivity.
       * discriminate Hn.
       * assert (HSc' : CSound c m cx) by (apply HSc; right; discriminate).
-        destruct (fst (c_reg has c m (l_pend (is_registry c) l m p))) eqn:Ei; simpl in Hn; try discriminate Hn.
+        destruct (fst (c_reg has c m (l_pend l m p))) eqn:Ei; simpl in Hn; try discriminate Hn.
         destruct (c_psf c || is_registry c) eqn:Eh; [discriminate Hn|].
-        destruct (IH has m cx _ HSc' H14c Ei) as [He | [Ha _]].
+        destruct (IH has m cx _ HSc' Ei) as [He | [Ha _]].
         -- left. simpl. rewrite He. apply andb_false_r.
         -- rewrite (allpsf_inner_has_psf c Ha) in Eh. discriminate Eh.
 Qed.
 
 Theorem stack_never : forall c m cx,
-  CSound c m cx -> c_f14 c = false -> c_interest c m = never -> deliver c m cx = [].
+  CSound c m cx -> c_interest c m = never -> deliver c m cx = [].
 Proof.
-  intros c m cx HS H14 Hn. unfold c_interest in Hn. unfold deliver.
-  destruct (coll_never c (c_has c) m cx None HS H14 Hn) as [He | [_ [Hr _]]].
+  intros c m cx HS Hn. unfold c_interest in Hn. unfold deliver.
+  destruct (coll_never c (c_has c) m cx None HS Hn) as [He | [_ [Hr _]]].
   - rewrite He. reflexivity.
   - rewrite Hr. destruct (c_en c m cx); reflexivity.
 Qed.
@@ -436,129 +456,117 @@ Proof.
   - inversion H; subst. auto.
 Qed.
 
-Lemma l_f8_vec : forall r ls m, l_f8 r (LVec ls) m = false ->
-  (l_int r (LVec ls) m = always -> Forall (fun e => l_int r e m = always) ls) /\
-  Forall (fun e => l_f8 r e m = false) ls.
-Proof.
-  intros r ls m H. simpl in H. apply orb_false_iff in H. destruct H as [H1 H2]. split.
-  - intros Ha. apply negb_false_iff in H1. rewrite Ha in H1.
-    destruct (conj_interest (map (fun e => l_int r e m) ls)) eqn:E; try discriminate H1.
-    apply conj_always_all in E. rewrite Forall_map in E. exact E.
-  - apply Forall_forall. intros e He. destruct (l_f8 r e m) eqn:E; [|reflexivity].
-    assert (existsb (fun e => l_f8 r e m) ls = true) by (apply existsb_exists; eauto). congruence.
-Qed.
-
 Lemma existsb_false_forall : forall {A} (g : A -> bool) l, existsb g l = false -> Forall (fun x => g x = false) l.
 Proof.
   intros A g l H. apply Forall_forall. intros x Hx. destruct (g x) eqn:E; [|reflexivity].
   assert (existsb g l = true) by (apply existsb_exists; eauto). congruence.
 Qed.
 
-(** a tree that answers [always] (outside the F8 / F82 classes) lets the callsite through globally, and if the
+(** a tree that answers [always] (outside the F82 class) lets the callsite through globally, and if the
     pending interest is still "always or nothing" after it, it was so before and every leaf in it receives *)
-Lemma layer_always : forall l r m cx,
-  LSound r l m cx -> l_f8 r l m = false -> l_f82 r l m = false -> l_int r l m = always ->
+Lemma layer_always : forall l m cx,
+  LSound l m cx -> l_f82 l m = false -> l_int l m = always ->
   l_en l m cx = true /\
-  (forall p, GA (l_pend r l m p) -> GA p /\ l_recv l m cx = l_all l) /\
+  (forall p, GA (l_pend l m p) -> GA p /\ l_recv l m cx = l_all l) /\
   (l_nfilt l = 0 -> l_recv l m cx = l_all l).
 Proof.
-  induction l using layer_ind'; intros r m cx HS H8 H82 Ha.
+  induction l using layer_ind'; intros m cx HS H82 Ha.
   - (* Rec *) simpl. repeat split; auto.
   - (* Glob *) unfold l_int in Ha. simpl in *. destruct HS as [_ HSa]. rewrite (HSa Ha). repeat split; auto.
   - (* Filtered *)
-    simpl in HS, H8, H82. destruct HS as [[HSn HSa] HSl]. apply orb_false_iff in H82. destruct H82 as [H82a H82b].
-    assert (Hin : f_int f m <> never -> l_int r l m = always).
+    simpl in HS, H82. destruct HS as [[HSn HSa] HSl]. apply orb_false_iff in H82. destruct H82 as [H82a H82b].
+    assert (Hin : f_int f m <> never -> l_int l m = always).
     { intros Hn. destruct (f_int f m); [congruence| |]; simpl in H82a;
-        destruct (l_int r l m); simpl in H82a; try discriminate H82a; reflexivity. }
+        destruct (l_int l m); simpl in H82a; try discriminate H82a; reflexivity. }
     split; [|split].
     + simpl. destruct (f_acc f m cx) eqn:Eacc; [|reflexivity].
-      assert (Hn : f_int f m <> never) by (intros Hn; rewrite (HSn Hn) in Eacc; discriminate Eacc).
-      apply (IHl r m cx (HSl Hn) H8 H82b (Hin Hn)).
+      assert (Hn : f_int f m <> never) by (intros Hn; apply HSn in Hn; congruence).
+      apply (IHl m cx (HSl Hn) H82b (Hin Hn)).
     + intros p Hg. rewrite l_pend_filtered in Hg. apply add_interest_GA in Hg. destruct Hg as [Hg Hi].
       assert (Hn : f_int f m <> never) by congruence.
       rewrite Hi in Hg. simpl in Hg.
-      destruct (IHl r m cx (HSl Hn) H8 H82b (Hin Hn)) as [_ [IH2 _]].
+      destruct (IHl m cx (HSl Hn) H82b (Hin Hn)) as [_ [IH2 _]].
       destruct (IH2 p Hg) as [Hp Hr]. split; [exact Hp|]. simpl. rewrite (HSa Hi). exact Hr.
     + simpl. intros H0. exfalso. lia.
   - (* Pair *)
-    simpl in HS, H8, H82. destruct HS as [HSa HSb].
-    apply orb_false_iff in H8. destruct H8 as [H8a H8b]. apply orb_false_iff in H82. destruct H82 as [H82a H82b].
+    simpl in HS, H82. destruct HS as [HSa HSb].
+    apply orb_false_iff in H82. destruct H82 as [H82a H82b].
     rewrite l_int_pair in Ha. unfold pick_int in Ha. simpl in Ha.
-    assert (Hab : l_int r l1 m = always /\ l_int r l2 m = always).
+    assert (Hab : l_int l1 m = always /\ l_int l2 m = always).
     { destruct (psf l1) eqn:Ep.
       - split; [apply psf_always; exact Ep | exact Ha].
-      - destruct (l_int r l1 m); simpl in Ha; try discriminate Ha.
-        destruct (l_int r l2 m); simpl in Ha; try discriminate Ha; auto.
-        destruct (psf l2 || r); discriminate Ha. }
+      - destruct (l_int l1 m); simpl in Ha; try discriminate Ha.
+        destruct (l_int l2 m); simpl in Ha; try discriminate Ha; auto.
+        destruct (psf l2); discriminate Ha. }
     destruct Hab as [Ha1 Ha2].
-    assert (HSb' : LSound r l2 m cx) by (apply HSb; right; congruence).
-    destruct (IHl1 r m cx HSa H8a H82a Ha1) as [A1 [A2 A3]].
-    destruct (IHl2 r m cx HSb' H8b H82b Ha2) as [B1 [B2 B3]].
+    assert (HSb' : LSound l2 m cx) by (apply HSb; right; congruence).
+    destruct (IHl1 m cx HSa H82a Ha1) as [A1 [A2 A3]].
+    destruct (IHl2 m cx HSb' H82b Ha2) as [B1 [B2 B3]].
     split; [|split].
     + simpl. rewrite A1, B1. reflexivity.
     + intros p Hg. rewrite l_pend_pair in Hg. rewrite Ha1 in Hg. simpl in Hg.
-      assert (Hg' : GA (l_pend r l2 m (l_pend r l1 m p))) by (destruct (psf l1); exact Hg).
+      assert (Hg' : GA (l_pend l2 m (l_pend l1 m p))) by (destruct (psf l1); exact Hg).
       destruct (B2 _ Hg') as [Hq Hrb]. destruct (A2 _ Hq) as [Hp Hra]. split; [exact Hp|]. simpl. rewrite Hra, Hrb. reflexivity.
     + simpl. intros H0. assert (l_nfilt l1 = 0 /\ l_nfilt l2 = 0) as [Z1 Z2] by lia.
       rewrite (A3 Z1), (B3 Z2). reflexivity.
-  - (* LSome *) simpl in *. apply (IHl r m cx HS H8 H82 Ha).
+  - (* LSome *) simpl in *. apply (IHl m cx HS H82 Ha).
   - (* LNone *) simpl. repeat split; auto.
   - (* Vec *)
-    destruct (l_f8_vec r ls m H8) as [Hall H8s]. specialize (Hall Ha).
+    rewrite l_int_vec in Ha. apply conj_always_all in Ha. rewrite Forall_map in Ha.
     simpl in H82. apply existsb_false_forall in H82. apply LSound_vec in HS.
-    assert (G : forall ls, Forall (fun l => forall r m cx, LSound r l m cx -> l_f8 r l m = false -> l_f82 r l m = false ->
-                  l_int r l m = always -> l_en l m cx = true /\
-                  (forall p, GA (l_pend r l m p) -> GA p /\ l_recv l m cx = l_all l) /\
+    assert (G : forall ls, Forall (fun l => forall m cx, LSound l m cx -> l_f82 l m = false ->
+                  l_int l m = always -> l_en l m cx = true /\
+                  (forall p, GA (l_pend l m p) -> GA p /\ l_recv l m cx = l_all l) /\
                   (l_nfilt l = 0 -> l_recv l m cx = l_all l)) ls ->
-                Forall (fun e => LSound r e m cx) ls -> Forall (fun e => l_f8 r e m = false) ls ->
-                Forall (fun e => l_f82 r e m = false) ls -> Forall (fun e => l_int r e m = always) ls ->
+                Forall (fun e => LSound e m cx) ls ->
+                Forall (fun e => l_f82 e m = false) ls -> Forall (fun e => l_int e m = always) ls ->
                 forallb (fun e => l_en e m cx) ls = true /\
-                (forall p, GA (fold_left (fun q e => l_pend r e m q) ls p) ->
+                (forall p, GA (fold_left (fun q e => l_pend e m q) ls p) ->
                            GA p /\ flat_map (fun e => l_recv e m cx) ls = flat_map l_all ls) /\
                 (forall n, fold_left (fun n e => n + l_nfilt e) ls n = 0 ->
                            n = 0 /\ flat_map (fun e => l_recv e m cx) ls = flat_map l_all ls)).
-    { clear. induction ls as [|e t IH]; intros HI HSs H8s H82s Has.
+    { clear. induction ls as [|e t IH]; intros HI HSs H82s Has.
       - simpl. repeat split; auto.
-      - inversion HI; subst. inversion HSs; subst. inversion H8s; subst. inversion H82s; subst. inversion Has; subst.
-        destruct (H1 r m cx H3 H5 H7 H9) as [E1 [E2 E3]].
-        destruct (IH H2 H4 H6 H8 H10) as [T1 [T2 T3]]. split; [|split].
+      - inversion HI; subst. inversion HSs; subst. inversion H82s; subst. inversion Has; subst.
+        destruct (H1 m cx H3 H5 H7) as [E1 [E2 E3]].
+        destruct (IH H2 H4 H6 H8) as [T1 [T2 T3]]. split; [|split].
         + simpl. rewrite E1, T1. reflexivity.
         + intros p Hg. simpl in Hg. destruct (T2 _ Hg) as [Hq Hr]. destruct (E2 _ Hq) as [Hp Hr'].
           split; [exact Hp|]. simpl. rewrite Hr, Hr'. reflexivity.
         + intros n Hn. simpl in Hn. destruct (T3 _ Hn) as [Hz Hr]. assert (n = 0 /\ l_nfilt e = 0) as [Z1 Z2] by lia.
           split; [exact Z1|]. simpl. rewrite Hr, (E3 Z2). reflexivity. }
-    destruct (G ls H HS H8s H82 Hall) as [G1 [G2 G3]]. split; [|split].
+    destruct (G ls H HS H82 Ha) as [G1 [G2 G3]]. split; [|split].
     + simpl. exact G1.
     + intros p Hg. rewrite l_pend_vec in Hg. simpl. apply G2. exact Hg.
     + simpl. intros H0. apply (G3 0 H0).
-  - (* LBox *) simpl in *. apply (IHl r m cx HS H8 H82 Ha).
-  - (* LReload *) simpl in *. apply (IHl r m cx HS H8 H82 Ha).
+  - (* LBox *) simpl in *. apply (IHl m cx HS H82 Ha).
+  - (* LReload *) simpl in *. apply (IHl m cx HS H82 Ha).
   - (* Identity *) simpl. repeat split; auto.
 Qed.
 
 Lemma coll_always : forall c has m cx p,
-  CSound c m cx -> c_f8 c m = false -> c_f82 c m = false -> fst (c_reg has c m p) = always ->
+  CSound c m cx -> c_f82 c m = false -> fst (c_reg has c m p) = always ->
   c_en c m cx = true /\
   (has = true -> GA p /\ c_recv c m cx = c_all c) /\
   (c_nfilt c = 0 -> c_recv c m cx = c_all c).
 Proof.
-  induction c as [|l c IH]; intros has m cx p HS H8 H82 Ha.
+  induction c as [|l c IH]; intros has m cx p HS H82 Ha.
   - simpl. split; [reflexivity|]. split; [|auto]. intros ->. simpl in Ha. split; [|reflexivity].
     destruct p as [i|]; simpl in Ha; [subst i; right; reflexivity | left; reflexivity].
   - rewrite c_reg_with in Ha. simpl in Ha. simpl in HS. destruct HS as [HSl HSc].
-    simpl in H8, H82. apply orb_false_iff in H8. destruct H8 as [H8l H8c].
+    simpl in H82.
     apply orb_false_iff in H82. destruct H82 as [H82l H82c].
     unfold pick_int in Ha. simpl in Ha.
-    assert (Hab : l_int (is_registry c) l m = always /\ fst (c_reg has c m (l_pend (is_registry c) l m p)) = always).
+    assert (Hab : l_int l m = always /\ fst (c_reg has c m (l_pend l m p)) = always).
     { destruct (psf l) eqn:Ep.
       - split; [apply psf_always; exact Ep | exact Ha].
-      - destruct (l_int (is_registry c) l m); simpl in Ha; try discriminate Ha.
-        destruct (fst (c_reg has c m (l_pend (is_registry c) l m p))); simpl in Ha; try discriminate Ha; auto.
+      - destruct (l_int l m); simpl in Ha; try discriminate Ha.
+        destruct (fst (c_reg has c m (l_pend l m p))); simpl in Ha; try discriminate Ha; auto.
         destruct (c_psf c || is_registry c); discriminate Ha. }
     destruct Hab as [Ha1 Ha2].
     assert (HSc' : CSound c m cx) by (apply HSc; right; congruence).
-    destruct (layer_always l _ m cx HSl H8l H82l Ha1) as [A1 [A2 A3]].
-    destruct (IH has m cx _ HSc' H8c H82c Ha2) as [B1 [B2 B3]].
+    destruct (layer_always l m cx HSl H82l Ha1) as [A1 [A2 A3]].
+    destruct (IH has m cx _ HSc' H82c Ha2) as [B1 [B2 B3]].
     split; [|split].
     + simpl. rewrite A1, B1. reflexivity.
     + intros Hh. destruct (B2 Hh) as [Hq Hr]. destruct (A2 _ Hq) as [Hp Hr']. split; [exact Hp|]. simpl. rewrite Hr, Hr'. reflexivity.
@@ -566,10 +574,10 @@ Proof.
 Qed.
 
 Theorem stack_always : forall c m cx,
-  CSound c m cx -> c_f8 c m = false -> c_f82 c m = false -> c_interest c m = always -> deliver c m cx = c_all c.
+  CSound c m cx -> c_f82 c m = false -> c_interest c m = always -> deliver c m cx = c_all c.
 Proof.
-  intros c m cx HS H8 H82 Ha. unfold c_interest in Ha. unfold deliver.
-  destruct (coll_always c (c_has c) m cx None HS H8 H82 Ha) as [He [H1 H2]]. rewrite He.
+  intros c m cx HS H82 Ha. unfold c_interest in Ha. unfold deliver.
+  destruct (coll_always c (c_has c) m cx None HS H82 Ha) as [He [H1 H2]]. rewrite He.
   unfold c_has in *. destruct (N.ltb_spec 0 (c_nfilt c)).
   - apply H1. reflexivity.
   - apply H2. lia.
